@@ -21,6 +21,8 @@ BEATS = [
     Fraction(0), Fraction(1, 3), Fraction(1, 2), Fraction(3, 4), Fraction(1), Fraction(7, 5),
     Fraction(47, 48), Fraction(4), Fraction(9, 2), Fraction(37, 7), Fraction(9),
 ]
+# beats whose denominators divide 192 but not 48 (32, 64, 96, 192), explored in a layer of their own
+DENOM_BEATS = [Fraction(0), Fraction(5, 32), Fraction(1, 3), Fraction(95, 96), Fraction(135, 64), Fraction(767, 192), Fraction(17, 4)]
 BEATS = sorted(BEATS)
 PLAYERS = (0, 1, 2)
 VARIANTS = [("1", None), ("2", None), ("M", 3), ("1", 3), ("4", None), ("L", 12)]
@@ -206,6 +208,24 @@ def explore_shard(acc, shard):
                     if fails:
                         report(acc, layer, case, fails)
         acc.sample(layer, case)
+    elif kind == "D":
+        layer = "D beats with denominators 32, 64, 96, 192"
+        pos = [(p, b, c) for p in (0, 1) for b in DENOM_BEATS for c in (0, 1)]
+        case = None
+        for n in (1, 2, 3):
+            for idxs in itertools.combinations(range(len(pos)), n):
+                stream = [note_at(i, pos[i]) for i in idxs]
+                case = {"kind": "stream", "cols": 2, "stream": fmt_stream(stream)}
+                core.guard_cheap(acc, case)
+                fails = check_stream(stream, 2)
+                acc.count("evaluations")
+                acc.count("states")
+                acc.count("transitions")
+                acc.count("nontrivial")
+                if fails:
+                    report(acc, layer, case, fails)
+        acc.outcome("beat with denominator 32/64/96/192")
+        acc.sample(layer, case)
     elif kind == "W":
         layer = "W 1..16 columns"
         for cols in range(1, 17):
@@ -275,6 +295,7 @@ def explore(run):
             shards.append(("S", cols, maxlen, i))
     shards.append(("V",))
     shards.append(("W",))
+    shards.append(("D",))
     shapes = N.format_shapes(run.thorough())
     if run.thorough():
         shapes = shapes[:182] + shapes[182::5]
